@@ -1,0 +1,93 @@
+// Copyright (c) 2026 10X Genomics, Inc. All rights reserved.
+
+//go:build verif
+
+package core
+
+// Read-only access to what the construction of the volatile-data-removal
+// bookkeeping (makePrenodesForBinding / attachToFileParents / setupRetains /
+// cloneFork) starts from, for the external verification harness.  Only
+// compiled with `-tags verif`.
+
+import (
+	"github.com/martian-lang/martian/martian/syntax"
+)
+
+// VerifBuildNode is one node of a pipestance with the call-graph node its
+// bookkeeping was built from.
+type VerifBuildNode struct {
+	Fqname string // fqname of the runtime node (ID.psid.…)
+	Call   syntax.CallGraphNode
+	// the node's parent is the top node (attachToFileParents registers the
+	// nil holder for such a pipeline)
+	ParentIsTop bool
+	NForks      int
+	// fqnames of the runtime nodes by call-graph fqid (what allNodes holds)
+}
+
+// VerifBuildInfo returns the nodes of the pipestance in allNodes() order and
+// the type lookup used when the references of a binding are typed.
+func (self *Pipestance) VerifBuildInfo() ([]VerifBuildNode, *syntax.TypeLookup) {
+	nodes := self.allNodes()
+	out := make([]VerifBuildNode, 0, len(nodes))
+	for _, n := range nodes {
+		out = append(out, VerifBuildNode{
+			Fqname:      n.GetFQName(),
+			Call:        n.call,
+			ParentIsTop: n.parent == Nodable(n.top),
+			NForks:      len(n.forks),
+		})
+	}
+	return out, self.node.top.types
+}
+
+// VerifFqnameOfFqid maps a call-graph fqid to the fqname of the runtime node
+// registered for it ("" if there is none).
+func (self *Pipestance) VerifFqnameOfFqid(fqid string) string {
+	if n := self.node.top.allNodes[fqid]; n != nil {
+		return n.GetFQName()
+	}
+	return ""
+}
+
+// VerifCloneProbe clones fork `index` of the node the way expandForks does
+// (the clone is NOT added to the node), then removes every file argument and
+// every file post-node from the clone.  It returns the bookkeeping of the
+// original before the clone was made, of the clone as made, and of the
+// original after the clone was emptied.
+func (self *Pipestance) VerifCloneProbe(fqname string, index int) (before, clone, after VerifVdrFork, ok bool) {
+	for _, n := range self.allNodes() {
+		if n.GetFQName() != fqname || index < 0 || index >= len(n.forks) {
+			continue
+		}
+		fork := n.forks[index]
+		before = fork.verifVdrView()
+		nf := cloneFork(fork, fork.forkId)
+		clone = nf.verifVdrView()
+		args := make([]string, 0, len(nf.fileArgs))
+		for a := range nf.fileArgs {
+			args = append(args, a)
+		}
+		// half of the arguments by removeFileArg, the rest by removeFilePostNodes
+		for i, a := range args {
+			if i%2 == 0 {
+				nf.removeFileArg(a)
+			}
+		}
+		nodes := make([]Nodable, 0, len(nf.filePostNodes))
+		for pn := range nf.filePostNodes {
+			nodes = append(nodes, pn)
+		}
+		nf.removeFilePostNodes(nodes)
+		for a := range nf.fileArgs {
+			if m := nf.fileArgs[a]; m != nil {
+				for k := range m {
+					delete(m, k)
+				}
+			}
+		}
+		after = fork.verifVdrView()
+		return before, clone, after, true
+	}
+	return before, clone, after, false
+}
